@@ -64,6 +64,8 @@ class Engine:
         lib.install(self)
         for fn, h in self.reg.rt_helpers.get("builtins", {}).items():
             self.builtins[fn] = h
+        for key, h in self.reg.rt_helpers.get("methods", {}).items():
+            self.methods[key] = h
         self.preregister()
 
     def preregister(self):
@@ -737,6 +739,8 @@ class Engine:
             return self.coerce(st, SV(k.inner, O.v(sv.term)), kind, node)
         if is_refkind(kind) and k is KNone:
             return SV(kind, z3.IntVal(0))
+        if isinstance(kind, KRef) and kind.cls == "exc" and k is KConst and isinstance(sv.const, PyExc):
+            return self.new_object(st, "exc")
         if isinstance(kind, KRef) and isinstance(k, KRef):
             # keep the more derived static class (dynamic dispatch needs it)
             ca, cb = self.class_by_name(k.cls), self.class_by_name(kind.cls)
